@@ -150,6 +150,14 @@ def cache_scenarios(rng, k):
              threads=[[('put', 1, 102), ('get', 1)], [('put', 2, 103), ('get', 1)], [('put', 1, 104)]]),
         dict(n=3, max_age=2, pre=[('put', 1, 101), ('put', 1, 102)],
              threads=[[('get', 1), ('put', 2, 103)], [('put', 3, 104), ('get', 1)]]),
+        # time passes inside calls (dt per pre-emption point) and while descheduled (switch_jump): two stores
+        # racing for the list order, then lookups sweeping across the moment the older one expires
+        dict(n=4, max_age=1000, dt=1, switch_jump=100, pre=[],
+             threads=[[('put', 1, 101)], [('put', 2, 102)],
+                      [('sleep', 550)] + [x for _ in range(8) for x in (('sleep', 50), ('get', 1), ('get', 2))]]),
+        dict(n=4, max_age=40, dt=1, switch_jump=15, pre=[('put', 9, 109)],
+             threads=[[('put', 1, 101), ('sleep', 10), ('get', 2)], [('put', 2, 102), ('sleep', 10), ('get', 1)],
+                      [x for _ in range(6) for x in (('sleep', 8), ('get', 1), ('get', 2))]]),
     ]
     while len(out) < k:
         n = rng.choice([2, 3, 4])
@@ -178,7 +186,13 @@ def cache_scenarios(rng, k):
                 else:
                     ops.append(('get', rng.randrange(1, nid + 1)))
             threads.append(ops or [('get', 1)])
-        out.append(dict(n=n, max_age=rng.choice([1, 2, 3, 50]), pre=pre, threads=threads))
+        dt = rng.choice([0, 1, 1, 3])
+        jump = rng.choice([0, 0, 10, 100])
+        if dt or jump:                                   # let time pass between calls as well
+            threads = [[x for op in th for x in ((('sleep', rng.choice([1, 5, 20, 60])),) if rng.random() < 0.4 else ())
+                        + (op,)] for th in threads]
+        out.append(dict(n=n, max_age=rng.choice([1, 2, 3, 50] if not (dt or jump) else [3, 20, 50, 150, 1000]),
+                        dt=dt, switch_jump=jump, pre=pre, threads=threads))
     return out
 
 
@@ -302,7 +316,7 @@ def explore_all(ctx, quick, deep):
     found = False
     depth = 1 if quick else 2
     # ---- SessionCache
-    scns = cache_scenarios(rng, 8 if quick else 14)
+    scns = cache_scenarios(rng, 11 if quick else 18)
     budget = (200 if quick else 800) * (3 if deep else 1)
     t0 = time.time()
     nruns = 0
@@ -414,6 +428,8 @@ def run(ctx):
         'Model/C18_Conc.v: one extracted step is atomic; threads interact only through the attributes of the shared object',
         'Spec/C18_CacheSpec.v and c18_cases.spec_outcomes as the reading of the property text (capacity maxEntries-1)',
         'harness/c18_sched.py CoopLock has threading.Lock semantics',
+        'the clock is read at the linearization point: time.time() is an extracted step (XClock) that must lie inside '
+        'the critical section; the fake clock of the thread runs advances at every pre-emption point and context switch',
     ]
     ctx.assumptions += ['clock monotone, integer-valued in the model (time.time() floats compared exactly in the code)',
                         'H-rsa-key: helper x = x^d mod n and x^(ed) = x mod n (checked on the test keys); the random unblinder '
